@@ -1,3 +1,7 @@
+/-
+The loop over all nodes (`runNodes`) preserves the invariant; `facs` only grows by `push`, so the
+well-formedness conditions stated on the final `nodeFacs` apply at every step.
+-/
 import FfcxProofs.Lemmas.FactorizeStep
 
 namespace Ffcx.IR
